@@ -41,9 +41,11 @@ WFEvent(S1, e) ==
 \* "the operand itself" and "an equal new instance" (see CopyOf in the core)
 Variant(e, S1) ==
   LET ev == Eval(S1, OpOf(e)) IN
-  IF /\ ev.res = "ok" /\ ev.alias > 0 /\ e.res = "ok" /\ e.dst # e.i
+  IF /\ ev.res = "ok" /\ ev.alias > 0 /\ e.res = "ok"
      /\ e.dst \in DOMAIN e.obs.o /\ e.i \in DOMAIN e.obs.o
-     /\ e.obs.o[e.dst].id # e.obs.o[e.i].id
+     /\ IF e.dst # e.i THEN e.obs.o[e.dst].id # e.obs.o[e.i].id
+        \* rebinding the operand's own variable: only a copy of another permitted class shows
+        ELSE e.obs.o[e.dst].cls # S1[e.i].cls /\ e.obs.o[e.dst].cls \in CopyClasses(S1[e.i], e.name)
   THEN CopyOf(S1[e.i], IF e.obs.o[e.dst].cls \in CopyClasses(S1[e.i], e.name) THEN e.obs.o[e.dst].cls
                        ELSE S1[e.i].cls)
   ELSE ev
@@ -94,6 +96,8 @@ EqWho(e, S2) ==
        \* a padding if one is involved, else the first object's class
        IF IsPad(S2[p[2]]) /\ ~IsPad(S2[p[1]]) THEN S2[p[2]].cls ELSE S2[p[1]].cls
 
+EqClauses == {"eq-answers-inconsistent", "equal-fields-compare-unequal", "unequal-objects-compare-equal",
+              "equal-objects-hash-differently"}
 EqClause(e, S2) ==
   LET D == DOMAIN S2 IN
   IF \E m, q \in D : e.obs.eq[m][q] = "X" THEN "eq-answers-inconsistent"
@@ -146,7 +150,7 @@ Step ==
      IN /\ S' = S2
         /\ verdict' = v
         /\ at' = IF live /\ v # "ok" THEN l + 1 ELSE at
-        /\ who' = IF live /\ wf /\ v # "ok" /\ v = EqClause(e, S2) THEN EqWho(e, S2) ELSE who
+        /\ who' = IF live /\ wf /\ v \in EqClauses THEN EqWho(e, S2) ELSE who
   /\ UNCHANGED tid
 
 Finish ==
